@@ -1,0 +1,225 @@
+//! Verification hooks (feature `verif`): run a compiled program in memory with
+//! captured devices, an optional per-instruction observer and a dump of the
+//! global variables afterwards. Nothing here is compiled without the feature.
+
+use std::cell::RefCell;
+use std::collections::HashMap;
+use std::io::{Cursor, Write};
+use std::panic::{AssertUnwindSafe, catch_unwind};
+use std::rc::Rc;
+
+use rusty_parser::{Name, UserDefinedTypes};
+use rusty_variant::Variant;
+
+use super::Interpreter;
+use crate::instruction_generator::InstructionGeneratorResult;
+use crate::interpreter::Stdlib;
+pub use crate::interpreter::context::Context;
+use crate::interpreter::interpreter_trait::InterpreterTrait;
+use crate::interpreter::io::{Input, Printer};
+use crate::interpreter::read_input::ReadInputSource;
+use crate::interpreter::screen::Screen;
+pub use crate::interpreter::variables::Variables;
+use crate::interpreter::write_printer::WritePrinter;
+use crate::{RuntimeError, RuntimeErrorPos};
+
+/// What the observer sees before each instruction is executed.
+pub struct TickView<'a> {
+    /// Index of the instruction about to be executed.
+    pub index: usize,
+    pub value_stack: usize,
+    pub register_stack: usize,
+    pub var_path_stack: usize,
+    pub by_ref_stack: usize,
+    pub stacktrace: usize,
+    pub return_address_stack: &'a [usize],
+    pub go_sub_address_stack: &'a [usize],
+    pub last_error_code: Option<i32>,
+    pub context: &'a Context,
+}
+
+/// Observer: return `false` to stop the run (e.g. instruction budget exhausted).
+pub type TickFn = Box<dyn FnMut(&TickView) -> bool>;
+
+impl<TStdlib: Stdlib, TStdIn: Input, TStdOut: Printer, TLpt1: Printer>
+    Interpreter<TStdlib, TStdIn, TStdOut, TLpt1>
+{
+    pub(super) fn verif_on_tick(&mut self, index: usize) -> bool {
+        match self.verif_tick.take() {
+            Some(mut f) => {
+                let keep_going = {
+                    let view = TickView {
+                        index,
+                        value_stack: self.value_stack.len(),
+                        register_stack: self.register_stack.len(),
+                        var_path_stack: self.var_path_stack.len(),
+                        by_ref_stack: self.by_ref_stack.len(),
+                        stacktrace: self.stacktrace.len(),
+                        return_address_stack: &self.return_address_stack,
+                        go_sub_address_stack: &self.go_sub_address_stack,
+                        last_error_code: self.last_error_code,
+                        context: &self.context,
+                    };
+                    f(&view)
+                };
+                self.verif_tick = Some(f);
+                keep_going
+            }
+            None => true,
+        }
+    }
+}
+
+#[derive(Clone, Default)]
+struct SharedBuf(Rc<RefCell<Vec<u8>>>);
+
+impl Write for SharedBuf {
+    fn write(&mut self, buf: &[u8]) -> std::io::Result<usize> {
+        self.0.borrow_mut().extend_from_slice(buf);
+        Ok(buf.len())
+    }
+
+    fn flush(&mut self) -> std::io::Result<()> {
+        Ok(())
+    }
+}
+
+struct VerifScreen {
+    view_print: Option<(usize, usize)>,
+}
+
+impl Screen for VerifScreen {
+    fn cls(&self) -> Result<(), RuntimeError> {
+        Ok(())
+    }
+
+    fn background_color(&self, _color: i32) -> Result<(), RuntimeError> {
+        Ok(())
+    }
+
+    fn foreground_color(&self, _color: i32) -> Result<(), RuntimeError> {
+        Ok(())
+    }
+
+    fn move_to(&self, _row: u16, _col: u16) -> Result<(), RuntimeError> {
+        Ok(())
+    }
+
+    fn show_cursor(&self) -> Result<(), RuntimeError> {
+        Ok(())
+    }
+
+    fn hide_cursor(&self) -> Result<(), RuntimeError> {
+        Ok(())
+    }
+
+    fn get_view_print(&self) -> Option<(usize, usize)> {
+        self.view_print
+    }
+
+    fn set_view_print(&mut self, start_row: usize, end_row: usize) {
+        self.view_print = Some((start_row, end_row));
+    }
+
+    fn reset_view_print(&mut self) {
+        self.view_print = None;
+    }
+}
+
+struct VerifStdlib {
+    env: HashMap<String, String>,
+    system_called: Rc<RefCell<bool>>,
+}
+
+impl Stdlib for VerifStdlib {
+    fn system(&self) {
+        *self.system_called.borrow_mut() = true;
+    }
+
+    fn get_env_var(&self, name: &str) -> String {
+        self.env.get(name).cloned().unwrap_or_default()
+    }
+
+    fn set_env_var(&mut self, name: String, value: String) {
+        self.env.insert(name, value);
+    }
+}
+
+/// The outcome of [run].
+pub struct RunReport {
+    pub stdout: Vec<u8>,
+    pub lpt1: Vec<u8>,
+    /// `None` if the interpreter panicked.
+    pub result: Option<Result<(), RuntimeErrorPos>>,
+    /// Panic payload, if the interpreter panicked.
+    pub panic: Option<String>,
+    /// Global variables after the run (empty if the interpreter panicked).
+    pub globals: Vec<(Name, Variant)>,
+    /// `ERR` as the interpreter sees it after the run.
+    pub last_error_code: Option<i32>,
+    pub system_called: bool,
+}
+
+/// Runs a compiled program in memory.
+pub fn run(
+    instruction_generator_result: InstructionGeneratorResult,
+    user_defined_types: UserDefinedTypes,
+    stdin: Vec<u8>,
+    env: HashMap<String, String>,
+    tick: Option<TickFn>,
+) -> RunReport {
+    let out = SharedBuf::default();
+    let lpt1 = SharedBuf::default();
+    let system_called = Rc::new(RefCell::new(false));
+    let stdlib = VerifStdlib {
+        env,
+        system_called: Rc::clone(&system_called),
+    };
+    let mut interpreter = Interpreter::new(
+        stdlib,
+        ReadInputSource::new(Cursor::new(stdin)),
+        WritePrinter::new(out.clone()),
+        WritePrinter::new(lpt1.clone()),
+        VerifScreen { view_print: None },
+        user_defined_types,
+    );
+    interpreter.verif_tick = tick;
+    let caught = catch_unwind(AssertUnwindSafe(|| {
+        let result = interpreter.interpret(instruction_generator_result);
+        let globals: Vec<(Name, Variant)> = interpreter
+            .context()
+            .global_variables()
+            .verif_entries()
+            .into_iter()
+            .map(|(n, v)| (n.clone(), v.clone()))
+            .collect();
+        (result, globals, interpreter.get_last_error_code())
+    }));
+    let (result, panic, globals, last_error_code) = match caught {
+        Ok((result, globals, code)) => (Some(result), None, globals, code),
+        Err(payload) => {
+            let msg = if let Some(s) = payload.downcast_ref::<&str>() {
+                (*s).to_owned()
+            } else if let Some(s) = payload.downcast_ref::<String>() {
+                s.clone()
+            } else {
+                "<non-string panic payload>".to_owned()
+            };
+            (None, Some(msg), vec![], None)
+        }
+    };
+    // drop the interpreter (closes files) before reading the buffers
+    let _ = catch_unwind(AssertUnwindSafe(move || drop(interpreter)));
+    let stdout = out.0.borrow().clone();
+    let lpt1 = lpt1.0.borrow().clone();
+    let system_called = *system_called.borrow();
+    RunReport {
+        stdout,
+        lpt1,
+        result,
+        panic,
+        globals,
+        last_error_code,
+        system_called,
+    }
+}
